@@ -151,6 +151,10 @@ const OP_DEADLINE_S: u64 = 120;
 /// (exit 2). (2) The whole run must end within a generous budget, so that a broken tree can make a check fail
 /// but cannot hang it.
 fn start_watchdog(mode: &str, ctx: &Ctx) {
+    // under Miri one lifecycle takes minutes of real time: deadlines mean nothing there
+    if cfg!(miri) {
+        return;
+    }
     let mode = mode.to_string();
     let replay_dir = ctx.replay_dir.clone();
     let (seed, flavour) = (ctx.seed, ctx.flavour.clone());
